@@ -42,6 +42,8 @@ func checkC15(r *Run) {
 	checkKeyLayout(r, p)
 	checkKeyProvenance(r, p)
 	checkNameAndOverwrite(r, p)
+	r.Rule("C15.ERR", "no error returned by a call is discarded, replaced in its own failure branch, accumulated from a possibly-nil value or left neither ruled out nor used on some path anywhere in the distribution channel package: a swallowed table or engine error is how the metadata and the engine come to disagree after a request that 'succeeded'", 1)
+	checkErrDrop(r, p, "C15.ERR", func(fn *FuncNode) bool { return fn.InPkgs(chanPkg) && !fn.InPkgs(chanPkg+"/pb") }, 100)
 	r.Rule("C15.R6.newkey", "the engine accepts a new channel only across the edges on which its key is in neither channel map: cesium.DB.validateNewChannel returns nil only when both the unary and the virtual lookup of ch.Key came back empty", 2)
 	checkNewChannelKey(r, p)
 	checkEngineUnion(r, p)
